@@ -71,6 +71,13 @@ static void c13_strings(const std::vector<std::string>& cat, int maxsites, int m
       for (int i = 0; i <= L; i++) for (char c : {'_', 'x', '1'}) { std::string s = n; s.insert(i, 1, c); add(s); }
       for (int i = 0; i < L; i++) if (n[i] == '_') { std::string s = n; s[i] = '-'; add(s); s[i] = ' '; add(s); }
       add(""); add("-"); add(" "); add("- -");
+      // paddings of length <= 3 over {blank, dash, c} that contain the special byte c at least once, behind and in front of the name
+      // (a byte that is not a separator makes the string a non-name wherever it stands, also inside a run of separators)
+      for (char c : {'\t', '\n', '\r', '\0', '\x7f'}) {
+        const char alpha[3] = {' ', '-', c};
+        for (int len = 1; len <= 3; len++) { int total = 1; for (int q = 0; q < len; q++) total *= 3;
+          for (int code = 0; code < total; code++) { std::string pad; int x = code; bool has = false; for (int q = 0; q < len; q++) { char ch = alpha[x % 3]; x /= 3; pad.push_back(ch); if (ch == c) has = true; } if (!has) continue; add(n + pad); add(pad + n); add(up + pad); } }
+      }
       // same length, two adjacent characters changed so that a linear character hash (k = m*k + c) is unchanged: c1 + d, c2 - m*d for the
       // usual multipliers; and adjacent transpositions (same multiset of characters)
       for (int i = 0; i + 1 < L; i++) {
@@ -180,7 +187,11 @@ static std::string snapshot_params() {
 }
 
 // ------------------------------------------------------------------------------------------------ C15
-static int mode_c15(const Caps& D, int tier) {
+static int mode_c15(const Caps& D, const Caps& P, int tier) {
+  // the capability set the binary provides (vtable-derived D) must not exceed the documented one (P): an evaluator overridden outside the
+  // documented set can no longer be the fail-safe stub for every parameter assignment, whatever it returns at the defaults
+  for (auto& sol : D.order) if (P.D.count(sol)) for (auto& key : D.D.at(sol)) if (!P.D.at(sol).count(key)) { n_valid++;
+    viol("C15", sol + ": the library overrides masa_eval_" + key + " although it is outside the documented capability set of this solution (the -1.33 contract cannot hold for all parameters)", "\"solution\":\"" + sol + "\",\"evaluator\":\"" + key + "\",\"kind\":\"undocumented-override\""); }
   for (int ctx = 0; ctx < 3; ctx++) for (auto& sol : D.order) {
     fflush(OUT);
     pid_t pid = fork();
@@ -324,7 +335,7 @@ int main(int argc, char** argv) {
   int rc = 0;
   if (mode == "c13") rc = mode_c13(tier, exc);
   else if (mode == "c14") { Caps D = read_caps(caps.c_str(), false), P = read_caps(spec.c_str(), true); rc = mode_c14(D, P); }
-  else if (mode == "c15") { Caps D = read_caps(caps.c_str(), false); rc = mode_c15(D, tier); }
+  else if (mode == "c15") { Caps D = read_caps(caps.c_str(), false), P = read_caps(spec.c_str(), true); rc = mode_c15(D, P, tier); }
   else if (mode == "catalogue") { for (auto& n : catalogue(false)) printf("%s\n", n.c_str()); }
   fprintf(OUT, "{\"k\":\"totals\",\"states\":%ld,\"transitions\":%ld,\"validated\":%ld}\n", n_states, n_trans, n_valid);
   fclose(OUT); unlink(g_capfile.c_str());
